@@ -297,6 +297,6 @@ class E2ERelSpec(Spec):
 def specs(tier):
     if tier == 'thorough':
         return [RelSpec('W<=4x4', 'W', 4, 4), RelSpec('Q<=4x4', 'Q', 4, 4), RelSpec('M<=4x4', 'M', 4, 4),
-                RelSpec('E<=5x6', 'E', 5, 6), StateReuseSpec(4), E2ERelSpec()]
+                RelSpec('E<=4x6', 'E', 4, 6), StateReuseSpec(4), E2ERelSpec()]
     return [RelSpec('W<=4x3', 'W', 4, 3), RelSpec('W<=3x4', 'W', 3, 4, only_new=(3, 3)),
             RelSpec('Q<=3x3', 'Q', 3, 3), RelSpec('Q<=2x4', 'Q', 2, 4, only_new=(2, 3)), RelSpec('M<=3x3', 'M', 3, 3), RelSpec('E<=3x5', 'E', 3, 5), StateReuseSpec(3), E2ERelSpec()]
